@@ -140,7 +140,22 @@ func ruleC07EveryRefSent(c *Ctx) {
 			c.notDecided(rule, "every-ref-sent", call.Pos(), "the parsed references are not sent on a channel inside the reading loop")
 			continue
 		}
-		if b := skipPath(l, call, hit); b != nil {
+		// from the point at which the line was read, if that is in the loop
+		// (a line may be dropped before it is even parsed)
+		var from ssa.Instruction = call
+		for b := range l.Blocks {
+			for _, in := range b.Instrs {
+				if rc, isCall := in.(*ssa.Call); isCall {
+					switch calleeQ(&rc.Call) {
+					case "(*bufio.Reader).ReadBytes", "(*bufio.Reader).ReadString", "(*bufio.Reader).ReadLine", "(*bufio.Reader).ReadSlice", "(*bufio.Scanner).Scan":
+						if instrDominates(in, call) {
+							from = in
+						}
+					}
+				}
+			}
+		}
+		if b := skipPath(l, from, hit); b != nil {
 			c.violate(rule, "every-ref-sent", b.Instrs[len(b.Instrs)-1].Pos(), fnName(f), "a reference that for-each-ref listed and that parsed is not handed on (the next line is read instead): it is neither counted nor tallied under any group, 'Other' or 'Ignored'")
 		} else {
 			c.hold(rule, "every-ref-sent", call.Pos(), "every reference line that parses is sent on")
